@@ -1,13 +1,60 @@
-import TucanProofs.Lemmas.Wrap
-/-! # C09 — property theorems (see DESIGN.md §5) -/
+import TucanProofs.Lemmas.LineMachinery
+import TucanProofs.Lemmas.SpliceAny
+/-!
+# C09 — written molfiles read back as the same molecule, at any line length
+
+About the writer model (`addV30Line`, `atomLine`, `graphToMolfileLines`) and the V3000 reader model
+(`concatLinesWithDash`, `tokenizeLine`, `parseAtomAttributesV3000`).  Coordinates are opaque tokens of
+arbitrary length (`f"{x:.6f}"` is not modelled), which is exactly what forces wraps at every position.
+-/
 namespace Tucan
 
-/-- Splicing the physical lines the writer produces for a logical line restores that line, for every
-length; the hypothesis says the logical line itself does not end in a dash. -/
+/-- **No line is longer than 80 characters including the newline**, for logical lines of every length. -/
+theorem C09_line_length (line : Str) : ∀ p ∈ addV30Line line, p.length ≤ 79 := addV30Line_length_le line
+
+/-- every physical line carries the `M  V30 ` prefix -/
+theorem C09_line_prefix (line : Str) : ∀ p ∈ addV30Line line, startsWith p v30Prefix = true := addV30Line_prefix line
+
+/-- **Splicing inverts wrapping, for every line length** (one, two or any number of wraps; wrap points
+inside a coordinate, a keyword, before or after a blank or a minus sign): the physical lines of a logical
+line that does not itself end in a dash splice back to `"M  V30 " ++ line`. -/
 theorem C09_splice_wrap (line : Str) (rest : List Str) (h : endsWithChar (v30Prefix ++ line) '-' = false) :
     concatLinesWithDash (addV30Line line ++ rest) = expectedSplice (v30Prefix ++ line) rest := splice_wrap line rest h
 
-/-- no physical line exceeds 79 characters -/
-theorem C09_line_length (line : Str) : ∀ p ∈ addV30Line line, p.length ≤ 79 := addV30Line_length_le line
+/-- a whole block of wrapped lines followed by one more line (e.g. the atom block followed by `M  END`)
+splices back to the prefixed logical lines -/
+theorem C09_splice_block (ls : List Str) (h : ∀ l ∈ ls, endsWithChar (v30Prefix ++ l) '-' = false) (last : Str) :
+    concatLinesWithDash ((ls.map addV30Line).flatten ++ [last]) = .ok (ls.map (v30Prefix ++ ·) ++ [last]) :=
+  splice_wrap_block ls h last
+
+/-- **The atom line the writer produces is decoded to what was written**: symbol, atomic number, the three
+coordinate tokens, and charge / radical / mass whenever they are in the format's ranges — and no other
+keyword is picked up (no element symbol, index or coordinate token is mistaken for `CHG`, `MASS`, `RAD`). -/
+theorem C09_atom_line_roundtrip (n : Node) (sym : Str) (hsym : n.attrs.sym = some sym) (hel : sym ∈ elementSyms)
+    (hx : ∀ t ∈ [n.attrs.x.getD zeroCoord, n.attrs.y.getD zeroCoord, n.attrs.zc.getD zeroCoord],
+      IsToken t ∧ pyFloatOk t = true)
+    (hid : (natRepr (n.id + 1)).length ≤ intMaxStrDigits)
+    (hchg : ∀ c, n.attrs.chg = some c → c ≠ 0 ∧ -15 ≤ c ∧ c ≤ 15)
+    (hrad : ∀ r, n.attrs.rad = some r → 0 < r ∧ r ≤ 3)
+    (hmass : ∀ m, n.attrs.mass = some m → 0 < m ∧ (intRepr m).length ≤ intMaxStrDigits) :
+    ∃ line z, atomLine n = .ok line ∧ atomicNumberOf sym = .ok z ∧
+      (tokenizeLine (v30Prefix ++ line))[2]? = some (natRepr (n.id + 1)) ∧
+      parseAtomAttributesV3000 (tokenizeLine (v30Prefix ++ line)) =
+        .ok (some { sym := some sym, z := some z, part := some 0,
+                    x := some (n.attrs.x.getD zeroCoord), y := some (n.attrs.y.getD zeroCoord),
+                    zc := some (n.attrs.zc.getD zeroCoord),
+                    chg := n.attrs.chg, rad := n.attrs.rad, mass := n.attrs.mass }) :=
+  atomLine_roundtrip n sym hsym hel hx hid hchg hrad hmass
+
+/-- index and count fields: `int(str(n)) = n` -/
+theorem C09_int_roundtrip (n : Nat) (h : (natRepr n).length ≤ intMaxStrDigits) : pyInt (natRepr n) = .ok (n : Int) :=
+  pyInt_natRepr n h
+
+/-- non-vacuity: a line of 100 characters wraps once and splices back -/
+example : (addV30Line (List.replicate 100 'x')).length = 2 ∧
+    endsWithChar (v30Prefix ++ List.replicate 100 'x') '-' = false := by
+  constructor
+  · rw [addV30Line]; simp; rw [addV30Line]; simp
+  · decide
 
 end Tucan
